@@ -239,7 +239,7 @@ ADDED = {
     "C10": " Added: captured segments are looked up by name; build_resource_path appends static text and values verbatim.",
     "C11": " Added: head fields not reset by clear() are overwritten on every path to the hand-off (must-pass, both protocols).",
     "C12": " Added: the bound compared is the configured limit itself (no path replaces it by a constant); the Readlines bound covers the line being assembled; an ignored multipart part is drained before the next one.",
-    "C13": " Added: a handler-set Content-Length is removed when an encoder is installed (h2 copied it: found and fixed); the request decoder is put back after every data chunk; negotiate() answers only with a coding taken from an accepted item (q > 0) or with identity when acceptable, and a specific identity item wins over `*` (found and fixed).",
+    "C13": " Added: a handler-set Content-Length is removed when an encoder is installed (h2 copied it: found and fixed); the request decoder is put back after every data chunk; negotiate() answers only with a coding taken from an accepted item (q > 0) or with identity when acceptable, and a specific identity item wins over `*` (found and fixed); every chunk is handed to the codec with write_all.",
     "C14": " Added: the Upgrade token is compared case-insensitively; the extended length field carries payload.len() itself.",
     "C15": " Added: a delimiter candidate at the head waits for enough bytes; the head check covers the scan's look-ahead; the scan resumes at the next byte; every header line of a part is kept (append, not insert).",
     "C16": " Added: the segment checks run on the decoded path and the checked PathBuf is what is returned; 412 takes precedence over 304; a directory listing is produced only when enabled; the range size is the file length.",
